@@ -2994,6 +2994,135 @@ def two_valued_properties_to_bools(tree: ast.Module) -> int:
 
 
 
+def inline_cm_aliases(tree: ast.Module) -> int:
+    """`with _in_flight() as markers:` where `_in_flight` is a @contextmanager generator of the package whose single yield
+    hands out a variable it does not own (`yield events`, `yield self._table`): inside the block `markers` *is* that
+    variable.  When the name is bound by such with-items only and read inside their blocks only, its reads are replaced by
+    the yielded expression and the `as` clause is dropped (what the generator does around the yield stays where it is)."""
+    import copy
+    count = 0
+    FN = (ast.FunctionDef, ast.AsyncFunctionDef)
+
+    def own(fn):
+        """nodes of fn's own body (nested defs / lambdas / classes not entered)"""
+        todo = list(fn.body)
+        while todo:
+            n = todo.pop()
+            yield n
+            for c in ast.iter_child_nodes(n):
+                if not isinstance(c, FN + (ast.Lambda, ast.ClassDef)):
+                    todo.append(c)
+                else:
+                    yield c           # the def itself (its name is bound here), not its body
+
+    def locals_of(fn) -> Set[str]:
+        a = fn.args
+        out = {x.arg for x in a.posonlyargs + a.args + a.kwonlyargs}
+        if a.vararg:
+            out.add(a.vararg.arg)
+        if a.kwarg:
+            out.add(a.kwarg.arg)
+        for n in own(fn):
+            if isinstance(n, ast.Name) and isinstance(n.ctx, (ast.Store, ast.Del)):
+                out.add(n.id)
+            elif isinstance(n, FN + (ast.ClassDef,)):
+                out.add(n.name)
+        return out
+
+    gens: Dict[str, ast.expr] = {}     # helper name -> yielded expression
+    dup: Set[str] = set()
+    for g in ast.walk(tree):
+        if not isinstance(g, ast.FunctionDef):
+            continue
+        decs = [d.attr if isinstance(d, ast.Attribute) else getattr(d, 'id', None) for d in g.decorator_list]
+        if decs != ['contextmanager']:
+            continue
+        ys = [n for n in own(g) if isinstance(n, (ast.Yield, ast.YieldFrom))]
+        if len(ys) != 1 or not isinstance(ys[0], ast.Yield) or ys[0].value is None:
+            continue
+        v = ys[0].value
+        loc = locals_of(g)
+        ok = (isinstance(v, ast.Name) and v.id not in loc) or (
+            isinstance(v, ast.Attribute) and isinstance(v.value, ast.Name) and v.value.id == 'self' and g.args.args
+            and g.args.args[0].arg == 'self')
+        if not ok:
+            continue
+        if g.name in gens:
+            dup.add(g.name)
+        gens[g.name] = v
+    for d in dup:
+        gens.pop(d, None)
+    if not gens:
+        return 0
+    for u in ast.walk(tree):
+        if not isinstance(u, FN):
+            continue
+        uloc = None
+        items = []     # (with stmt, item, yielded expr)
+        for n in own(u):
+            if isinstance(n, (ast.With,)):
+                for it in n.items:
+                    ce = it.context_expr
+                    if not (isinstance(ce, ast.Call) and isinstance(it.optional_vars, ast.Name)):
+                        continue
+                    f = ce.func
+                    nm = f.id if isinstance(f, ast.Name) else (f.attr if isinstance(f, ast.Attribute) and isinstance(f.value, ast.Name)
+                                                               and f.value.id == 'self' else None)
+                    if nm in gens:
+                        items.append((n, it, gens[nm]))
+        if not items:
+            continue
+        uloc = locals_of(u)
+        by_name: Dict[str, list] = {}
+        for w, it, v in items:
+            by_name.setdefault(it.optional_vars.id, []).append((w, it, v))
+        for x, lst in by_name.items():
+            vs = {ast.dump(v) for _, _, v in lst}
+            if len(vs) != 1:
+                continue
+            v = lst[0][2]
+            if isinstance(v, ast.Name) and (v.id in uloc or v.id == x):
+                continue          # the using function has a variable of its own under that name
+            if isinstance(v, ast.Attribute) and not (u.args.args and u.args.args[0].arg == 'self'):
+                continue
+            binders = {id(it.optional_vars) for _, it, _ in lst}
+            a = u.args
+            if x in {y.arg for y in a.posonlyargs + a.args + a.kwonlyargs} or (a.vararg and a.vararg.arg == x) or (a.kwarg and a.kwarg.arg == x):
+                continue
+            inside: Set[int] = set()
+            for w, _, _ in lst:
+                for st in w.body:
+                    inside |= {id(z) for z in ast.walk(st)}
+            ok = True
+            for n in ast.walk(u):
+                if isinstance(n, ast.Name) and n.id == x and n is not None:
+                    if isinstance(n.ctx, ast.Load):
+                        if id(n) not in inside:
+                            ok = False
+                    elif id(n) not in binders:
+                        ok = False
+                elif isinstance(n, (ast.Global, ast.Nonlocal)) and x in n.names:
+                    ok = False
+            # (a nested function that reads the name later than the block would see the last binding: refuse)
+            for n in own(u):
+                if isinstance(n, FN + (ast.Lambda,)) and any(isinstance(z, ast.Name) and z.id == x for z in ast.walk(n)):
+                    ok = False
+            if not ok:
+                continue
+
+            class R(ast.NodeTransformer):
+                def visit_Name(self, node: ast.Name):
+                    if node.id == x and isinstance(node.ctx, ast.Load):
+                        return ast.copy_location(copy.deepcopy(v), node)
+                    return node
+            for w, it, _ in lst:
+                w.body = [R().visit(st) for st in w.body]
+                it.optional_vars = None
+                count += 1
+            u._removed_locals = set(getattr(u, '_removed_locals', set())) | {x}  # type: ignore[attr-defined]
+    return count
+
+
 def fold_negations(tree: ast.Module) -> int:
     """`not (a is not b)` -> `a is b`, `not (a is b)` -> `a is not b`, likewise `in` / `not in` (these pairs are exact
     negations of each other for every operand; `==` / `!=` are not and stay); `not not e` -> `e` where only the truth of the
